@@ -199,6 +199,8 @@ Proof.
   - destruct (cl_pend_get _ _) as [pb|]; [|reflexivity]. destruct (cl_refill pb); reflexivity.
   - destruct (cl_pend_get _ _) as [pb|]; [|reflexivity]. destruct wr; [|unfold cs_conn; destruct (cs_end c pb); reflexivity].
     rewrite out_notes. unfold cs_conn. destruct (cs_end c pb); reflexivity.
+  - (* MSendBack *)
+    destruct (cl_pend_get _ _) as [pb|]; [|reflexivity]. sb_cases c pb; reflexivity.
   - destruct (negb _); reflexivity.
   - destruct opb; reflexivity.
 Qed.
